@@ -246,7 +246,7 @@ Proof.
   apply andb_true_iff. split; lia.
 Qed.
 
-Definition next_seq (seq : N) : N := (seq + 1) mod 2 ^ 32.
+Definition next_seq (seq : N) : N := (seq + 1) mod 2 ^ 24.
 
 Lemma c13_report_shape st seq fseid s pid fid :
   get_session fseid st = Some s -> first_core (s_pdrs s) = (pid, fid) -> pid <> 0 ->
@@ -265,11 +265,9 @@ Lemma c13_report_shape_in_range st seq fseid s pid fid :
 Proof.
   intros Hs Hp Hpid Hn Hseq Hr. rewrite (c13_report_shape _ _ _ _ _ _ Hs Hp Hpid Hn). unfold next_seq.
   assert (E24 : (2 ^ 24 : N) = 16777216) by reflexivity.
-  assert (E32 : (2 ^ 32 : N) = 4294967296) by reflexivity.
   assert (E16 : (2 ^ 16 : N) = 65536) by reflexivity.
-  rewrite E24, E32, E16 in *.
-  rewrite (N.mod_small (seq + 1) 4294967296) by lia.
-  rewrite (N.mod_small (seq + 1) 16777216) by lia.
+  rewrite E24, E16 in *.
+  rewrite !(N.mod_small (seq + 1) 16777216) by lia.
   rewrite (N.mod_small pid 65536) by lia. reflexivity.
 Qed.
 
@@ -383,7 +381,7 @@ Proof.
   - cbn. split; [exact I|lia].
   - change (2 ^ 24) with 16777216 in *. cbn [length] in Hb.
     assert (Hn : next_seq seq = seq + 1).
-    { unfold next_seq. change (2 ^ 32) with 4294967296. apply N.mod_small. lia. }
+    { unfold next_seq. apply N.mod_small. lia. }
     assert (Hn24 : (seq + 1) mod 16777216 = seq + 1).
     { apply N.mod_small. lia. }
     destruct (hdr_cases st seq f) as [H|[H|(s & pid & _ & _ & H)]]; rewrite H; clear H;
